@@ -43,6 +43,7 @@ var rcFragments = []string{
 	"\"\\", "\"\\x", "\"\\x4", "\"\\1", "\"\\12", "\"a\": \"", "\"a\": '", "a:", "a: b", "Control-a:", "Control-a: ",
 	"Meta-Control-", "\\", "\\C-a: x", "set convert-meta", "set convert-meta maybe", "set history-size x", "set history-size -1",
 	"set history-size 99999999999999999999", "\"\\e[A\": previous-history", "TAB: complete", "RET", "SPC:", "Rubout: x", "DEL",
+	"\"é\": self-insert", "set comment-begin é", "é: x", "Control-é: x", "\"\\C-é\": \"ü", "$if é", "set é on", "$include é",
 	"set comment-begin \"", "set comment-begin '#", "set isearch-terminators \"\\C-", "\x00", "\xff\xfe", "\r", "#", " #", "\t",
 }
 
@@ -69,11 +70,11 @@ func (g *Gen) rcWellFormed(depth int) []string {
 		case 3:
 			out = append(out, fmt.Sprintf("set %s %s", Pick(g, []string{"history-size", "completion-query-items", "keyseq-timeout"}), Pick(g, []string{"0", "5", "-1", "500"})))
 		case 4:
-			out = append(out, fmt.Sprintf("\"%s\": %s", Pick(g, []string{"\\C-a", "\\M-x", "\\e[A", "\\C-x\\C-r", "ab", "\\\"", "\\\\", "\\101", "\\x41", "\\M-\\C-h"}), Pick(g, g.Cat.Commands)))
+			out = append(out, fmt.Sprintf("\"%s\": %s", Pick(g, []string{"\\C-a", "\\M-x", "\\e[A", "\\C-x\\C-r", "ab", "\\\"", "\\\\", "\\101", "\\x41", "\\M-\\C-h", "é", "日本", "\\C-xü"}), Pick(g, g.Cat.Commands)))
 		case 5:
 			out = append(out, fmt.Sprintf("%s: %s", Pick(g, []string{"Control-a", "Meta-Rubout", "C-M-x", "Meta-Control-h", "TAB", "ESC", "Control-Meta-j", "M-a"}), Pick(g, g.Cat.Commands)))
 		case 6:
-			out = append(out, fmt.Sprintf("\"%s\": \"%s\"", Pick(g, []string{"\\C-o", "\\ez", "xy"}), Pick(g, []string{"text", "\\C-a\\C-k", "with \\\"quote\\\"", ""})))
+			out = append(out, fmt.Sprintf("\"%s\": \"%s\"", Pick(g, []string{"\\C-o", "\\ez", "xy"}), Pick(g, []string{"text", "\\C-a\\C-k", "with \\\"quote\\\"", "", "héllo wörld", "日本語"})))
 		case 7:
 			out = append(out, Pick(g, []string{"# comment", "", "   ", "\t# indented comment"}))
 		default:
